@@ -9,6 +9,7 @@ use diameter::DiameterMessage;
 use std::collections::VecDeque;
 use std::fmt::Write as _;
 use std::panic::{catch_unwind, AssertUnwindSafe};
+use std::future::Future;
 use std::pin::Pin;
 use std::sync::{Arc, Mutex};
 use std::task::{Context, Poll};
@@ -18,6 +19,8 @@ use tokio::io::{AsyncRead, AsyncWrite, ReadBuf};
 pub enum REv {
     Chunk(Vec<u8>),
     Pending,
+    /// not ready for that many milliseconds of (virtual) time
+    Sleep(u64),
     Eof,
     Err,
 }
@@ -26,6 +29,7 @@ pub enum REv {
 pub enum WEv {
     Accept(usize),
     Pending,
+    Sleep(u64),
     Err,
 }
 
@@ -41,12 +45,31 @@ pub struct ScriptStream {
     pub r: VecDeque<REv>,
     pub w: VecDeque<WEv>,
     pub sh: Arc<Mutex<Shared>>,
+    pub rsleep: Option<Pin<Box<tokio::time::Sleep>>>,
+    pub wsleep: Option<Pin<Box<tokio::time::Sleep>>>,
+}
+
+impl ScriptStream {
+    pub fn new(r: VecDeque<REv>, w: VecDeque<WEv>, sh: Arc<Mutex<Shared>>) -> ScriptStream {
+        ScriptStream { r, w, sh, rsleep: None, wsleep: None }
+    }
 }
 
 impl AsyncRead for ScriptStream {
     fn poll_read(mut self: Pin<&mut Self>, cx: &mut Context<'_>, buf: &mut ReadBuf<'_>) -> Poll<std::io::Result<()>> {
         let me = &mut *self;
         me.sh.lock().unwrap().read_polls += 1;
+        while let Some(REv::Sleep(ms)) = me.r.front() {
+            let ms = *ms;
+            let sl = me.rsleep.get_or_insert_with(|| Box::pin(tokio::time::sleep(std::time::Duration::from_millis(ms))));
+            match sl.as_mut().poll(cx) {
+                Poll::Ready(()) => {
+                    me.rsleep = None;
+                    me.r.pop_front();
+                }
+                Poll::Pending => return Poll::Pending,
+            }
+        }
         match me.r.front_mut() {
             None | Some(REv::Eof) => Poll::Ready(Ok(())),
             Some(REv::Err) => Poll::Ready(Err(std::io::Error::new(std::io::ErrorKind::ConnectionReset, "reset"))),
@@ -55,6 +78,7 @@ impl AsyncRead for ScriptStream {
                 cx.waker().wake_by_ref();
                 Poll::Pending
             }
+            Some(REv::Sleep(_)) => unreachable!(),
             Some(REv::Chunk(bs)) => {
                 if bs.is_empty() {
                     me.r.pop_front();
@@ -77,6 +101,17 @@ impl AsyncWrite for ScriptStream {
     fn poll_write(mut self: Pin<&mut Self>, cx: &mut Context<'_>, buf: &[u8]) -> Poll<std::io::Result<usize>> {
         let me = &mut *self;
         me.sh.lock().unwrap().write_polls += 1;
+        while let Some(WEv::Sleep(ms)) = me.w.front() {
+            let ms = *ms;
+            let sl = me.wsleep.get_or_insert_with(|| Box::pin(tokio::time::sleep(std::time::Duration::from_millis(ms))));
+            match sl.as_mut().poll(cx) {
+                Poll::Ready(()) => {
+                    me.wsleep = None;
+                    me.w.pop_front();
+                }
+                Poll::Pending => return Poll::Pending,
+            }
+        }
         match me.w.front() {
             None => {
                 me.sh.lock().unwrap().received.extend_from_slice(buf);
@@ -88,6 +123,7 @@ impl AsyncWrite for ScriptStream {
                 cx.waker().wake_by_ref();
                 Poll::Pending
             }
+            Some(WEv::Sleep(_)) => unreachable!(),
             Some(WEv::Accept(k)) => {
                 let n = (*k).min(buf.len());
                 me.w.pop_front();
@@ -116,6 +152,8 @@ pub fn parse_rscript(t: &mut Toks) -> PResult<VecDeque<REv>> {
             _ => {
                 if let Some(h) = s.strip_prefix("c:") {
                     REv::Chunk(unhex(&format!("x{}", h))?)
+                } else if let Some(h) = s.strip_prefix("t:") {
+                    REv::Sleep(u64::from_str_radix(h, 16).map_err(|e| e.to_string())?)
                 } else {
                     return Err(format!("rev {}", s));
                 }
@@ -136,6 +174,8 @@ pub fn parse_wscript(t: &mut Toks) -> PResult<VecDeque<WEv>> {
             _ => {
                 if let Some(h) = s.strip_prefix("a:") {
                     WEv::Accept(usize::from_str_radix(h, 16).map_err(|e| e.to_string())?)
+                } else if let Some(h) = s.strip_prefix("t:") {
+                    WEv::Sleep(u64::from_str_radix(h, 16).map_err(|e| e.to_string())?)
                 } else {
                     return Err(format!("wev {}", s));
                 }
@@ -158,7 +198,7 @@ fn run_to_end<F: std::future::Future>(fut: F) -> std::result::Result<Option<F::O
     let r = catch_unwind(AssertUnwindSafe(|| {
         let rt = runtime();
         rt.block_on(async move {
-            match tokio::time::timeout(std::time::Duration::from_secs(86400), fut).await {
+            match tokio::time::timeout(std::time::Duration::from_secs(86400 * 365), fut).await {
                 Ok(v) => Some(v),
                 Err(_) => None,
             }
@@ -185,7 +225,7 @@ pub fn decode_n(st: &State, t: &mut Toks) -> PResult<String> {
     let k = t.usize_dec()?;
     let rs = parse_rscript(t)?;
     let sh = Arc::new(Mutex::new(Shared::default()));
-    let mut stream = ScriptStream { r: rs, w: VecDeque::new(), sh: Arc::clone(&sh) };
+    let mut stream = ScriptStream::new(rs, VecDeque::new(), Arc::clone(&sh));
     let sh2 = Arc::clone(&sh);
     let out = Arc::new(Mutex::new(String::from("SD")));
     let out2 = Arc::clone(&out);
@@ -224,7 +264,7 @@ pub fn encode_1(st: &State, t: &mut Toks) -> PResult<String> {
     };
     let ws = parse_wscript(t)?;
     let sh = Arc::new(Mutex::new(Shared::default()));
-    let mut stream = ScriptStream { r: VecDeque::new(), w: ws, sh: Arc::clone(&sh) };
+    let mut stream = ScriptStream::new(VecDeque::new(), ws, Arc::clone(&sh));
     let res = run_to_end(async move { Codec::encode(&mut stream, &m).await.is_ok() });
     let mut o = String::from("SE ");
     match res {
@@ -266,7 +306,7 @@ pub fn serve(st: &State, t: &mut Toks) -> PResult<String> {
         }
     }
     let sh = Arc::new(Mutex::new(Shared::default()));
-    let stream = ScriptStream { r: rs, w: ws, sh: Arc::clone(&sh) };
+    let stream = ScriptStream::new(rs, ws, Arc::clone(&sh));
     let calls: Arc<Mutex<Vec<String>>> = Arc::new(Mutex::new(Vec::new()));
     let answers = Arc::new(Mutex::new(answers.into_iter().map(Some).collect::<Vec<_>>()));
     let calls2 = Arc::clone(&calls);
